@@ -100,6 +100,112 @@ func runEngineE7(p *Prog, o *obls) {
 	}
 	o.ok("E7", "inspected", "-", fmt.Sprintf("%d list insertion(s) filed in an index map", n))
 	e7OrderIsSendOrder(p, o)
+	e7RecycledElement(p, o)
+}
+
+// E7 (a recycled element leaves its old key behind) — an element taken from the list by position (Back, Front, Next,
+// Prev) is still filed in the index under the key of the record it holds. Rewriting its Value and filing it under a
+// new key without a delete from that index first leaves the old key pointing at the new record: a lookup of the
+// old key (feedback about a packet that was evicted) answers with a packet that was never asked about, and the
+// index grows by one key per recycled element.
+func e7RecycledElement(p *Prog, o *obls) {
+	n := 0
+	var leaves func(v ssa.Value, seen map[ssa.Value]bool, out *[]ssa.Value)
+	leaves = func(v ssa.Value, seen map[ssa.Value]bool, out *[]ssa.Value) {
+		v = p.origin(v)
+		if seen[v] {
+			return
+		}
+		seen[v] = true
+		if ph, ok := v.(*ssa.Phi); ok {
+			for _, e := range ph.Edges {
+				leaves(e, seen, out)
+			}
+			return
+		}
+		*out = append(*out, v)
+	}
+	byPosition := func(v ssa.Value) bool {
+		c, ok := v.(*ssa.Call)
+		if !ok {
+			return false
+		}
+		sc := c.Call.StaticCallee()
+		if sc == nil || sc.Pkg == nil || sc.Pkg.Pkg.Path() != "container/list" {
+			return false
+		}
+		switch sc.Name() {
+		case "Back", "Front", "Next", "Prev":
+			return true
+		}
+		return false
+	}
+	for _, fn := range p.Funcs {
+		if fn.Blocks == nil || !p.InUniverse(fn) {
+			continue
+		}
+		instrsOf(fn, func(in ssa.Instruction) {
+			st, ok := in.(*ssa.Store)
+			if !ok {
+				return
+			}
+			fa, ok := st.Addr.(*ssa.FieldAddr)
+			if !ok || !strings.HasSuffix(typeKey(deref(fa.X.Type())), "container/list.Element") {
+				return
+			}
+			if fv := fieldOfAddr(fa); fv == nil || fv.Name() != "Value" {
+				return
+			}
+			var ls []ssa.Value
+			leaves(fa.X, map[ssa.Value]bool{}, &ls)
+			var elem ssa.Value
+			for _, l := range ls {
+				if byPosition(l) {
+					elem = l
+				}
+			}
+			if elem == nil {
+				return
+			}
+			// is the same element filed in a map by this function?
+			var filed *ssa.MapUpdate
+			instrsOf(fn, func(in2 ssa.Instruction) {
+				mu, ok := in2.(*ssa.MapUpdate)
+				if !ok {
+					return
+				}
+				var ml []ssa.Value
+				leaves(mu.Value, map[ssa.Value]bool{}, &ml)
+				for _, l := range ml {
+					if l == elem {
+						filed = mu
+					}
+				}
+			})
+			if filed == nil {
+				return
+			}
+			n++
+			key := funcKey(fn) + ":list-recycle"
+			mapKey := p.pureKey(filed.Map)
+			deleted := false
+			instrsOf(fn, func(in2 ssa.Instruction) {
+				c, ok := in2.(*ssa.Call)
+				if !ok || builtinName(&c.Call) != "delete" || len(c.Call.Args) < 1 {
+					return
+				}
+				if p.pureKey(c.Call.Args[0]) == mapKey && instrDominates(c, st) {
+					deleted = true
+				}
+			})
+			if deleted {
+				o.ok("E7", key, p.instrPos(st), "the recycled element's old key is deleted from the index before its Value is rewritten")
+			} else {
+				o.bad("E7", key, p.instrPos(st), fmt.Sprintf("the element taken from the list by position is given a new Value and filed under a new key at %s without a delete from the same index first: its old key stays behind and now finds the new record", p.instrPos(filed)))
+			}
+		})
+	}
+	o.ok("E7", "list-recycle-inspected", "-", fmt.Sprintf("%d recycled element(s) filed anew", n))
 }
 
 // E7 (the list's order is the order of insertion) — the eviction list of a history is cut at its back, so what is
